@@ -4,6 +4,7 @@
 mod c02;
 mod c04;
 mod c06;
+mod c06r;
 mod c07;
 mod c07r;
 mod c11;
